@@ -5,6 +5,7 @@
   tools/seeded.py detect <seeded dir> [ID..] apply the patch to /repo's working tree, run the quick checks (default:
                                              the property named in meta.json), restore the tree
   tools/seeded.py detect-wt <seeded dir> [ID..]  same, in a scratch worktree with VERIF_REPO pointing at it
+  tools/seeded.py detect-all [repo|wt]           every kept change against the checks as they are now -> seeded/DETECTION.json
 Nothing is ever committed in /repo."""
 import json
 import os
@@ -112,10 +113,41 @@ def detect_wt(d, ids):
     return 0 if all(v == 1 for v in out.values()) else 1
 
 
+def detect_all(mode):
+    """re-run the detection of EVERY kept change with the checks as they are now (after all widening):
+    -> seeded/DETECTION.json {id: {check: verdict}}; mode 'repo' applies each patch to /repo's working tree (and
+    restores it), mode 'wt' uses scratch worktrees"""
+    import contextlib
+    import io
+    res = {}
+    for name in sorted(os.listdir(os.path.join(HERE, "seeded"))):
+        d = os.path.join(HERE, "seeded", name)
+        mp = os.path.join(d, "meta.json")
+        if not os.path.isdir(d) or not os.path.exists(mp):
+            continue
+        meta = json.load(open(mp))
+        if meta.get("status") == "obsolete":
+            res[name] = {"status": "obsolete"}
+            continue
+        ids = meta.get("caught_by") or [meta["property"]]
+        buf = io.StringIO()
+        with contextlib.redirect_stdout(buf):
+            (detect if mode == "repo" else detect_wt)(d, ids[:1])
+        line = [ln for ln in buf.getvalue().splitlines() if ln.startswith(ids[0])]
+        verdict = line[-1].split()[1] if line else "not-run: " + buf.getvalue()[-200:]
+        res[name] = {ids[0]: verdict}
+        print(name, res[name], flush=True)
+        json.dump(res, open(os.path.join(HERE, "seeded", "DETECTION.json"), "w"), indent=1, sort_keys=True)
+    bad = {k: v for k, v in res.items() if "caught" not in v.values() and v.get("status") != "obsolete"}
+    print(f"{len(res) - len(bad)}/{len(res)} caught or obsolete; not caught: {sorted(bad)}")
+    return 0 if not bad else 1
+
+
 if __name__ == "__main__":
-    if len(sys.argv) < 3:
+    if len(sys.argv) < 3 and sys.argv[1:2] != ["detect-all"]:
         print(__doc__)
         sys.exit(2)
     fn = {"validate": lambda: validate(sys.argv[2]), "detect": lambda: detect(sys.argv[2], sys.argv[3:]),
-          "detect-wt": lambda: detect_wt(sys.argv[2], sys.argv[3:])}[sys.argv[1]]
+          "detect-wt": lambda: detect_wt(sys.argv[2], sys.argv[3:]),
+          "detect-all": lambda: detect_all(sys.argv[2] if len(sys.argv) > 2 else "repo")}[sys.argv[1]]
     sys.exit(fn())
